@@ -47,6 +47,8 @@ def generate(seed: int, tier: str) -> dict:
     inputs = gen_inputs(ir, world, p=0.45)
     kr = st["knobs"]
     knobs = {"max_spiral_loops": kr.randint(1, 3)}
+    if chance(kr, 0.3):
+        knobs["groups_first"] = True
     env = {}
     names = [v["name"] for v in world["variables"]]
     if chance(kr, 0.45):
